@@ -96,6 +96,7 @@ impl<'l, F: AsFd> Async<'l, F> {
             let _ = set_nonblocking(fd.as_fd(), was_nonblocking);
             return Err(err);
         }
+        dispatcher.borrow_mut().is_registered = true;
 
         // Straightforward casting would require us to add the bound `Data: 'l` but we don't actually need it
         // as this module never accesses the dispatch data, so we use transmute to erase it
@@ -233,9 +234,14 @@ impl<Data> IoLoopInner for LoopInner<'_, Data> {
             slot.source = None;
         }
         // The IO object can outlive its adapter (`into_inner`, or another handle to the same file):
-        // take its fd out of the poller now, nobody else will.
-        if let Ok(poll) = self.poll.try_borrow() {
-            let _ = poll.unregister(unsafe { BorrowedFd::borrow_raw(dispatcher.borrow().fd) });
+        // take its fd out of the poller now, nobody else will. Only if this adapter put it there:
+        // after a failed registration the fd may belong to another source of the loop.
+        let mut disp = dispatcher.borrow_mut();
+        if disp.is_registered {
+            if let Ok(poll) = self.poll.try_borrow() {
+                let _ = poll.unregister(unsafe { BorrowedFd::borrow_raw(disp.fd) });
+                disp.is_registered = false;
+            }
         }
     }
 }
